@@ -145,6 +145,9 @@ func (g *GenCfg) genItem(r *RNG, depth int) interface{} {
 	switch {
 	case p < 45 || depth <= 0:
 		return T{"iri": g.iriID(r)}
+	case p < 49 && g.EmptyTypes:
+		// an embedded object that carries nothing but its id (a reference spelled as an object)
+		return T{"t": "Object", "ptr": true, "f": T{"ID": T{"s": g.nextID("id-only")}}}
 	case p < 80:
 		return g.genNode(r, objectGoTypes[r.Intn(len(objectGoTypes))], depth-1, true)
 	case p < 88 && g.Links:
